@@ -25,7 +25,10 @@ CLAIMS = {
              "channel lies within one 8-bit step of the hull over t +- 2/65536, pixels without admissible t must be "
              "exactly transparent. TLC checks folding, lookup and the interval helpers against their definitions on a "
              "lattice (two wrong variants are rejected). TLC-generated scenarios (1..4 stops incl. repeated positions, "
-             "17 geometries, 4 repeat modes, 6 transforms incl. two projective, narrow and float destinations) plus "
+             "17 geometries, 4 repeat modes, 12 transforms: affine, shear, w = 2, perspective in x only / y only / "
+             "both, w crossing zero; narrow and float destinations; 4 rows per composite call) and the exhaustive "
+             "geometry x transform grid (so that every iterator branch - the linear one-scanline shortcut, the "
+             "affine and projective branches of all three kinds - is reached where a wrong branch changes pixels) plus "
              "seeded safety scenarios (unsorted/garbage stops, degenerate geometry, singular transforms) run on the real "
              "library under AddressSanitizer with a watchdog.",
         ref="5 C13"),
@@ -50,6 +53,16 @@ def tlc_scenarios(n, seed):
         res.append(json.loads(json.loads(b)))
     if not res:
         raise vf.Infra("GradientGen produced no scenarios:\n" + r.out[-2000:])
+    return res, r
+
+
+def tlc_grid():
+    """every geometry x every transform, enumerated breadth-first by TLC (GradientGen!Grid)"""
+    path = os.path.join(vf.SPEC, "gen", "GradientGen.tla")
+    r = vf.run_tlc(path, cfg=os.path.join(vf.SPEC, "gen", "GradientGrid.cfg"), workers=1, timeout=300, tag="ggrid")
+    res = [json.loads(json.loads(b)) for b in sorted(set(r.vf("scenario")))]
+    if len(res) < 100:
+        raise vf.Infra("GradientGen grid produced %d scenarios:\n%s" % (len(res), r.out[-2000:]))
     return res, r
 
 
@@ -252,15 +265,21 @@ def run(prop, args):
     mc(chk)
 
     # 2. scenarios generated by TLC from the specification + seeded safety scenarios
-    nscn = 380 if quick else 7000
+    nscn = 300 if quick else 15000
     scns, r = tlc_scenarios(nscn, args.seed)
     chk.add_tlc(r, "scenario generation (GradientGen, -generate)")
     chk.extra["tlc_generated_scenarios"] = len(scns)
+    # every geometry under every transform (each branch of the scanline functions: horizontal one-scanline
+    # shortcut, affine / projective, w constant along a row but not from row to row ...), 4 rows in ONE composite
+    grid, r = tlc_grid()
+    chk.add_tlc(r, "geometry x transform grid (GradientGen!Grid, breadth-first)")
+    chk.extra["tlc_grid_scenarios"] = len(grid)
+    scns = scns + grid
     chk.sample({"tlc_generated_scenario": scns[0]})
     execs = []
     for i, s in enumerate(scns):
         execs.append(["R c%d" % i, g_line(1, s["kind"], s["repeat"], s["wide"], s["stops"], s["g"], s["m"])])
-    nsafe = 150 if quick else 2500
+    nsafe = 150 if quick else 4000
     for i, line in enumerate(safety_scenarios(rng, nsafe)):
         execs.append(["R s%d" % i, line])
     chk.extra["executions"] = len(execs)
